@@ -89,7 +89,7 @@ def run(pid, tier, selftest, assumptions):
         ty = a2mlgen.resolve(decls)[1]
         for per_line in (1, 2, 3):
             a2mlgen.PER_LINE[0] = per_line
-            blocks = [(a2mlgen.SITES[(di + i) % 11], [t for t in a2mlgen.instance(ty, grng) if "\\n" not in t]) for i in range(4)]
+            blocks = [(a2mlgen.SITES[(di + i) % 11], a2mlgen.instance(ty, grng)) for i in range(4)]
             docs.append((a2mlgen.document(a2mlgen.render(decls), blocks), False))
             meta.append({"e": "ifdata-described", "pat": {"fam": "ifdata-described", "cmt": f"{per_line} per line"}, "file_level_comment": False})
     a2mlgen.PER_LINE[0] = 6
